@@ -51,6 +51,12 @@ def ic_setup(ctx):
                  data=dict(apply_on=apply_on, existing=existing, sources=[srcs[0]] if src_kind == 0 else srcs[:src_kind], target=target, has_fn=has_fn, src_kind=src_kind))
 
 
+def overlaps(a, b):
+    """the same key, or one nested in the other (a.v1 lies in the group a): a link into a member of a group changes the group"""
+    dot = z3.StringVal(".")
+    return z3.Or(a == b, z3.PrefixOf(z3.Concat(b, dot), a), z3.PrefixOf(z3.Concat(a, dot), b))
+
+
 def ic_post(ctx, st, result):
     d = st.data
     ctx.oblige("post", "apply_on-is-parse-or-instantiate", d["apply_on"] in ("parse", "instantiate"))
@@ -59,8 +65,10 @@ def ic_post(ctx, st, result):
         tg = [a.attrs["target"][0] for a in d["existing"]]
         parse_src = [x[0] for a in d["existing"] if a.attrs["apply_on"] == "parse" for x in a.attrs["source"]]
         ctx.oblige("post", "target-is-not-already-a-target", z3.And([d["target"] != t for t in tg]) if tg else True)
-        ctx.oblige("post", "no-source-is-the-target-of-another-link(no chains)", z3.And([s != t for s in d["sources"] for t in tg]) if tg else True)
-        ctx.oblige("post", "target-is-not-a-source(any of them)-of-a-parse-link", z3.And([d["target"] != s for s in parse_src]) if parse_src else True)
+        # a chain is a chain also through a group: a source that *contains* another link's target (the group a, when a.v1 is a target), or lies inside one, is fed by that
+        # link (the exact-key test of the shipped code accepted link(a -> b) followed by link(c -> a.v1), and b was computed from a without v1; fixed)
+        ctx.oblige("post", "no-source-is,contains-or-lies-inside-the-target-of-another-link(no chains)", z3.And([z3.Not(overlaps(s, t)) for s in d["sources"] for t in tg]) if tg else True, strings=True)
+        ctx.oblige("post", "the-target-neither-is,contains-nor-lies-inside-a-source(any of them)-of-a-parse-link", z3.And([z3.Not(overlaps(d["target"], s)) for s in parse_src]) if parse_src else True, strings=True)
 
 
 def ic_raises(ctx, st, exc):
@@ -71,7 +79,7 @@ def ic_raises(ctx, st, exc):
     if d["apply_on"] == "parse":
         tg = [a.attrs["target"][0] for a in d["existing"]]
         parse_src = [x[0] for a in d["existing"] if a.attrs["apply_on"] == "parse" for x in a.attrs["source"]]
-        reasons += [d["target"] == t for t in tg] + [s == t for s in d["sources"] for t in tg] + [d["target"] == s for s in parse_src]
+        reasons += [d["target"] == t for t in tg] + [overlaps(s, t) for s in d["sources"] for t in tg] + [overlaps(d["target"], s) for s in parse_src]
     concrete = [r for r in reasons if isinstance(r, bool)]
     symbolic = [r for r in reasons if not isinstance(r, bool)]
     ctx.oblige("raises", "refused=>bad-apply_on,or-several-sources-without-function,or-a-chain/double-target", True if any(concrete) else (z3.Or(*symbolic) if symbolic else False))
